@@ -28,6 +28,22 @@ VIOLATED = bool(bad); DETAIL = "%d crafted legacy buffers misbehave on the decod
 '''
 
 
+# "never reads outside the supplied buffer", over time: a batch reads through a Py_buffer view of an object it holds a
+# reference to. PyBuffer_Release gives that reference back - from then on the view's pointer dangles - and PyObject_GetBuffer
+# takes a new one. Whatever happens in between (a codec that is missing, a payload that does not inflate), the batch must
+# leave the function still holding the object its view points into: validate_crc() or a second iteration would otherwise read
+# memory that may have been freed and reused.
+HOLDS_AT_EXIT = ("the-batch-still-holds-the-object-its-buffer-view-points-into", "$holds")
+
+
+def HOLDS(c):
+    c.ghost("$holds", BOOL, "True")
+    c.call("__release__", ghost={"$holds": "False"},
+           note="PyBuffer_Release(&self._buffer): the reference is given back, the view dangles")
+    c.call("__getbuffer__", returns="a0", ghost={"$holds": "True"},
+           note="PyObject_GetBuffer(obj, &self._buffer, PyBUF_SIMPLE): a view of obj, which is now referenced")
+
+
 def c_intrinsics(c, replay=_LEGACY_REPLAY):
     """models of the C helpers the translated code calls (hton.pxd is 20 lines of ntohl arithmetic: trusted)"""
     if replay:
@@ -38,7 +54,8 @@ def c_intrinsics(c, replay=_LEGACY_REPLAY):
     from pyvc.ty import PYOBJ
     for m in ("hton", "cutil"):                        # cimported helper modules: calls into them are modelled below
         c.bind(m, V(PYOBJ, PyThing("module", name="aiokafka.record._crecords." + m)))
-    for f in ("PyBytes_FromStringAndSize", "__slice__", "__getbuffer__", "PyMemoryView_FromMemory", "PyBytes_GET_SIZE", "PyBytes_AS_STRING"):
+    for f in ("PyBytes_FromStringAndSize", "__slice__", "__getbuffer__", "__release__", "PyMemoryView_FromMemory", "PyBytes_GET_SIZE",
+              "PyBytes_AS_STRING"):
         c.bind(f, V(PYOBJ, PyThing("func", name=f, module="cpython")))
     c.call("hton.unpack_int64", returns=INT, pre=[("read-inside-the-buffer", "0 <= a0.pos and a0.pos + 8 <= len(a0.buf)")],
            note="hton.unpack_int64: 8 bytes big-endian at the address")
@@ -54,6 +71,8 @@ def c_intrinsics(c, replay=_LEGACY_REPLAY):
            pre=[("slice-inside-the-buffer", "0 <= a1 and 0 <= a2 and a1 + a2 <= len(a0)")],
            note="re-pointing a Py_buffer: buf = &B[p], len = n")
     c.call("__getbuffer__", returns="a0", note="PyObject_GetBuffer(obj, &view, PyBUF_SIMPLE): the object's bytes")
+    c.call("__release__", note="PyBuffer_Release(&view): gives the exported buffer back; the view's pointer dangles from here on "
+                               "(tracked where a contract declares the ghost $holds, LegacyRecordBatch._decompress)")
 
 
 @contract(MOD + ":LegacyRecordBatch._check_bounds", ["C10"])
@@ -89,10 +108,12 @@ def _(c):
     c.self_("LegacyBatchC")
     c.returns(BOOL)
     c.requires("len(self._buffer) <= 2**40", "buffer-size-plausible")
-    # the constructors leave at least one whole message header in the buffer (their ensures); iterating a compressed
-    # batch replaces the buffer by the decompressed payload, for which the checksum is meaningless: callers (the
-    # fetcher) validate before iterating
-    c.requires("self._decompressed == 0 and len(self._buffer) >= LOG_OVERHEAD + RECORD_OVERHEAD_V0_DEF", "called-on-the-undecompressed-batch")
+    # the constructors leave at least one whole message header in the buffer (their ensures). Iterating a compressed batch
+    # replaces the buffer by the decompressed payload - of any length, also shorter than the 16 bytes the checksum skips,
+    # and then `len - MAGIC_OFFSET` cast to size_t is huge: the call must be refused once the batch has been decompressed
+    # (an iteration that then fails on a corrupt inner set leaves the batch in exactly that state), as the v2 class does
+    c.requires("implies(self._decompressed == 0, len(self._buffer) >= LOG_OVERHEAD + RECORD_OVERHEAD_V0_DEF)", "constructed-batch")
+    c.raises("already-iterated", "AssertionError", when="self._decompressed != 0", exact=True)
     c.call("cutil.calc_crc32", returns=Tup(INT, INT),
            pre=[("checksummed-range-inside-the-buffer", "0 <= a1.pos and 0 <= a2 and a1.pos + a2 <= len(a1.buf)")],
            note="cutil.calc_crc32(crc, buf, len, &out): reads len bytes from buf")
@@ -162,3 +183,40 @@ def _(c):
     c.raises("truncated-or-corrupt", "CorruptRecordException")
     c.ensures("next-position-inside-the-buffer", "implies(not read_pos__null, old(read_pos__in) < result[1] and result[1] <= len(self._buffer))")
     c.ensures("a-whole-minimal-message-was-there", "len(self._buffer) - ite(read_pos__null, 0, read_pos__in) >= LOG_OVERHEAD + RECORD_OVERHEAD_V0_DEF")
+
+
+@contract(MOD + ":LegacyRecordBatch._decompress", ["C10"])
+def _(c):
+    """replaces the view of the wrapper message by a view of the decompressed inner message set"""
+    from pyvc.ty import PYOBJ
+    from pyvc.exec_base import PyThing
+    HOLDS(c)
+    c_intrinsics(c)
+    c.self_("LegacyBatchC")
+    c.param("compression_type", INT)
+    c.returns(INT)
+    for f in ("gzip_decode", "snappy_decode", "lz4_decode"):
+        c.bind(f, V(PYOBJ, PyThing("func", name=f, module="aiokafka.codec")))
+    c.requires("-128 <= compression_type and compression_type <= 127", "a-c-char")
+    for f in ("gzip_decode", "snappy_decode", "lz4_decode"):
+        c.call(f, returns=BYTES, raises=["Exception"], post=["0 <= len(result) and len(result) <= 2**40"],
+               note="codec library: the decompressed payload (any content, any length)")
+    c.modifies("self._buffer")
+    c.raises("no-value-codec-missing-or-corrupt-payload", "Exception", ensures=[HOLDS_AT_EXIT])
+    c.ensures(*HOLDS_AT_EXIT)
+    c.replay_fn = lambda model, ob=None: {"script": _LEGACY_REPLAY}
+
+
+@contract(MOD + ":_assert_has_codec", ["C10"])
+def _(c):
+    """returns only for a codec this format knows and whose library is present"""
+    from pyvc.ty import PYOBJ
+    from pyvc.exec_base import PyThing
+    c_intrinsics(c)
+    c.param("compression_type", INT)
+    c.bind("codecs", V(PYOBJ, PyThing("module", name="aiokafka.codec")))
+    c.requires("-128 <= compression_type and compression_type <= 127", "a-c-char")
+    c.call("checker", returns=BOOL, note="codecs.has_gzip / has_snappy / has_lz4: whether the library can be imported")
+    c.raises("unknown-codec-or-library-missing", "UnsupportedCodecError")
+    c.ensures("a-codec-of-this-format",
+              "compression_type == _ATTR_CODEC_GZIP or compression_type == _ATTR_CODEC_SNAPPY or compression_type == _ATTR_CODEC_LZ4")
